@@ -179,6 +179,13 @@ func runC13Backpressure(c *mon.Case) {
 	k := []pp{{250 * time.Millisecond, 500 * time.Millisecond}, {500 * time.Millisecond, time.Second}}[rng.Intn(2)]
 	n := []uint8{1, 3, 20}[rng.Intn(3)]
 	conf := eng.GBNConf{N: n, PingC: k.ping, PongC: k.pong, Static: true, Resend: time.Second}
+	// In half of the cases the application has stopped sending when the peer
+	// dies and the resend timeout is shorter than the ping time, so that the
+	// first write that blocks is a retransmission, not a fresh packet.
+	resendFirst := rng.Intn(2) == 0
+	if resendFirst {
+		conf.Resend = 100 * time.Millisecond
+	}
 	ctx, cancel := context.WithCancel(context.Background())
 	defer cancel()
 	p := eng.NewPair(conf)
@@ -195,8 +202,9 @@ func runC13Backpressure(c *mon.Case) {
 			}
 		}
 	}()
+	var stopSending atomic.Bool
 	go func() {
-		for i := 0; ; i++ {
+		for i := 0; !stopSending.Load(); i++ {
 			if p.C.Send(eng.MsgBytes('a', i, 200)) != nil {
 				return
 			}
@@ -204,11 +212,18 @@ func runC13Backpressure(c *mon.Case) {
 		}
 	}()
 	time.Sleep(time.Duration(100+rng.Intn(400)) * time.Millisecond)
+	if resendFirst {
+		// lose the acknowledgements of the last packets, stop the
+		// application, and let the fresh packets drain into the link
+		p.S2C.SetBlackhole(true, true)
+		stopSending.Store(true)
+		time.Sleep(30 * time.Millisecond)
+	}
 	t0 := time.Now()
 	p.S2C.SetBlackhole(true, true)
 	p.C2S.SetBlockSend(true)
 	bound := k.ping + k.pong + 10*time.Second + 5*time.Second
-	rep := map[string]any{"kind": "B", "conf": conf.String(), "bound": bound.String()}
+	rep := map[string]any{"kind": "B", "conf": conf.String(), "bound": bound.String(), "first_blocked_write_is_a_retransmission": resendFirst}
 	select {
 	case <-p.C.VerifDone():
 		c.Shard.Max("max_detection_backpressure_ms", time.Since(t0).Milliseconds())
@@ -220,7 +235,7 @@ func runC13Backpressure(c *mon.Case) {
 	cancel()
 	go p.CloseAll()
 	c.Shard.Count("backpressure_cases", 1)
-	c.Shard.Eval(fmt.Sprintf("B|%v|%d", k.ping, n))
+	c.Shard.Eval(fmt.Sprintf("B|%v|%d|resendFirst=%v", k.ping, n, resendFirst))
 }
 
 // runC13MailboxDeadPeer: the same situation one layer up, on the real clock: a
@@ -348,7 +363,10 @@ func runC13Dead(c *mon.Case) {
 		conf.Lat = 0
 	}
 	if rng.Intn(2) == 0 {
-		conf.Static, conf.Resend = true, []time.Duration{time.Second, 2 * time.Second, 6 * time.Second}[rng.Intn(3)]
+		// (200 ms: the sync wait after a resend, 3x the resend timeout, is
+		// then shorter than every pong timeout but one, so that several
+		// keepalive ticks can pass while the window stays full)
+		conf.Static, conf.Resend = true, []time.Duration{200 * time.Millisecond, time.Second, 2 * time.Second, 6 * time.Second}[rng.Intn(4)]
 	}
 	// the peer's own keepalive may be different or off
 	switch rng.Intn(3) {
